@@ -280,6 +280,19 @@ class EvalMixin:
             if env['old'] is None: raise Unsupported('fresh() without a pre-state')
             if isinstance(v, SliceV): v = v.arr
             return (v > env['old']['st'].alloc, 'bool')
+        if name == 'memframe':
+            # memframe(T, s): every array of element type T other than the backing array of slice s is unchanged
+            if env['old'] is None: raise Unsupported('memframe() without a pre-state')
+            et = self.resolve_type(self.ast_type(args[0]))
+            v, t = self.ev(args[1], env)
+            arr = v.arr if isinstance(v, SliceV) else v
+            a = Int('mf!a'); cs = []
+            for key in sorted(self.keys_of('mem:' + self.skey(et), et)):
+                if key in st.sorts:
+                    nidx, srt = st.sorts[key]
+                    new = st.arr(key, nidx, srt); oldarr = env['old']['st'].arr(key, nidx, srt)
+                    cs.append(ForAll([a], Implies(a != arr, Select(new, a) == Select(oldarr, a)), patterns=[Select(new, a)]))
+            return (And(*cs) if cs else BoolVal(True), 'bool')
         if name == 'wasalloc':
             v, t = self.ev(args[0], env)
             if env['old'] is None: raise Unsupported('wasalloc() without a pre-state')
